@@ -45,9 +45,12 @@ class ViewSection(Micheline, prim='view', args_len=4):
         if code.prim in ('CREATE_CONTRACT', 'SET_DELEGATE', 'TRANSFER_TOKENS') and not lambda_:
             raise MichelsonRuntimeError('view', f'{code.prim} is not allowed in views')
 
-        lambda_ |= code.prim in ('LAMBDA', 'lambda')
-        for arg in getattr(code, 'args', ()):
-            ViewSection.check_code(arg, lambda_)
+        lambda_ |= code.prim in ('LAMBDA', 'LAMBDA_REC', 'lambda')
+        args = getattr(code, 'args', ())
+        # the literal of `PUSH (lambda a b) {...}` is a lambda body as well
+        push_lambda = code.prim == 'PUSH' and len(args) == 2 and getattr(args[0], 'prim', None) == 'lambda'
+        for arg in args:
+            ViewSection.check_code(arg, lambda_ or push_lambda)
 
     @classmethod
     def create_type(
